@@ -572,6 +572,13 @@ class Interp:
                 if hev is None:
                     continue
                 self._add_cb(pid, pc, hev, defuse)
+            elif op == "cbintr":
+                _, k, j, cause = ins
+                hev = self._ref_event(k)
+                if hev is None:
+                    continue
+                T = self._ref_proc(j, pid, True)
+                self._add_cb(pid, pc, hev, False, intr=(T, cause))
             elif op == "cbjoin":
                 _, j, defuse = ins
                 T = self._ref_proc(j, pid, True)
@@ -651,7 +658,7 @@ class Interp:
                 h.flag("C02.trigger_once", f"{hev.name} outcome changed to {got}, first was {hev.expect}",
                        "C02.trigger_once/changed")
 
-    def _add_cb(self, pid, pc, hev, defuse):
+    def _add_cb(self, pid, pc, hev, defuse, intr=None):
         if hev.ev.processed:
             if hev.processed_step is None:
                 self.h.flag("C02.harness", f"{hev.name} processed but harness saw no probe", "harness/processed")
@@ -673,24 +680,33 @@ class Interp:
             if reg[2] and not ev._ok:
                 ev.defused = True
             interp.log(None, None, "cb", (cid, hev.name, got))
+            if intr is not None:
+                # a plain callback may interrupt any live process: no process is active while callbacks run
+                interp.h.bump("intr_from_callback")
+                interp._interrupt(None, None, intr[0], intr[1], cbkey=("cb", cid))
 
         hev.ev.callbacks.append(cb)
         self.h.bump("cb")
 
-    def _interrupt(self, pid, pc, T, cause):
+    def _interrupt(self, pid, pc, T, cause, cbkey=None):
+        """pid None: issued by a harness callback (cbkey identifies it); nobody is the active process then"""
         h = self.h
         should_refuse = (not T.alive) or T.pid == pid
         n_before = len(h.occs)
-        P = self.procs[pid]
-        P.n_intr_instr += 1
-        key = (pid, pc, P.n_intr_instr)
+        if pid is None:
+            key = cbkey
+        else:
+            P = self.procs[pid]
+            P.n_intr_instr += 1
+            key = (pid, pc, P.n_intr_instr)
         if key in self.skip:
             return
         try:
             T.process.interrupt(cause)
         except RuntimeError:
             if not should_refuse:
-                h.flag("C04.refuse", f"interrupt of live P{T.pid} by P{pid} raised RuntimeError", "C04.refuse/live")
+                h.flag("C04.refuse", f"interrupt of live P{T.pid} by {'a callback' if pid is None else 'P%d' % pid} raised RuntimeError",
+                       "C04.refuse/live")
             if len(h.occs) != n_before:
                 h.flag("C04.refuse", "refused interrupt still scheduled something", "C04.refuse/effect")
             self.log(pid, pc, "interrupt-refused", T.pid)
